@@ -9,3 +9,52 @@ package eval
 //@ func Frame.ValueOutput
 //@   trusted
 //@   pure
+
+// ---------------------------------------------------------------------------
+// C42 / C17: redirections. File descriptors given by the program are arbitrary
+// integers; every one of them must end in a port-table update or an exception,
+// never in a Go panic or an unbounded allocation.
+
+//@ func growAccess
+//@   props C42 C17
+//@   requires [fd-non-negative] 0 <= i
+//@   requires [fd-bounded] i < 1048576
+//@   ensures result != nil
+
+//@ func evalForFd
+//@   props C42 C17
+//@   results fd err
+//@   ensures err == nil && !closeOK ==> true
+
+//@ func makeFlag
+//@   props C42
+//@   pure
+//@   ensures m == parse.Read ==> result == os.O_RDONLY
+//@   ensures m == parse.Write ==> result == (os.O_WRONLY | os.O_CREATE | os.O_TRUNC)
+//@   ensures m == parse.Append ==> result == (os.O_WRONLY | os.O_CREATE | os.O_APPEND)
+//   read-write redirection must create but never truncate
+//@   ensures m == parse.ReadWrite ==> result == (os.O_RDWR | os.O_CREATE) && (result & os.O_TRUNC) == 0
+//@   ensures m != parse.Read && m != parse.Write && m != parse.Append && m != parse.ReadWrite ==> result == -1
+
+//@ func fileRedirPort
+//@   props C42
+//@   ensures result != nil && result.File == f
+//@   ensures mode == parse.Read ==> result.sendError == nil
+//@   ensures mode != parse.Read ==> result.Chan == nil && result.sendError != nil
+
+//@ func redirOp.exec
+//@   props C42 C17
+
+// Boundary contracts of the evaluator used by the functions above (trusted:
+// they build error values or evaluate user code, which is outside the subset).
+//@ func Frame.errorp
+//@   trusted
+//@   pure
+//@   ensures result != nil
+//@ func Frame.errorpf
+//@   trusted
+//@   pure
+//@   ensures result != nil
+//@ func evalForValue
+//@   trusted
+//@   results value err
